@@ -51,37 +51,8 @@ func vLegalPointer(name string, lens []int) string {
 	return VsBytes(name, n, 0x41, 0x7e)
 }
 
-// vSameTree compares two nodes position by position: tag, value, pointer, Go type, children.
-func vSameTree(a, b Node) bool {
-	ok := VsAll(
-		a.Tag().Tag() == b.Tag().Tag(),
-		VsStrEq(a.Value(), b.Value()),
-		VsStrEq(a.Pointer(), b.Pointer()),
-		fmt.Sprintf("%T", a) == fmt.Sprintf("%T", b),
-		len(a.Nodes()) == len(b.Nodes()),
-	)
-	if len(a.Nodes()) != len(b.Nodes()) {
-		return false
-	}
-	for i, c := range a.Nodes() {
-		ok = VsAnd(ok, vSameTree(c, b.Nodes()[i]))
-	}
-	return ok
-}
-
-func vSameDocument(a, b *Document) bool {
-	if len(a.Nodes()) != len(b.Nodes()) {
-		return false
-	}
-	ok := a.HasBOM == b.HasBOM
-	for i, n := range a.Nodes() {
-		ok = VsAnd(ok, vSameTree(n, b.Nodes()[i]))
-	}
-	return ok
-}
-
-var vRootTags = []string{"INDI", "FAM", "HEAD", "NOTE", "SOUR", "ZZ", "_X1", "7"}
-var vChildTags = []string{"NAME", "DATE", "BIRT", "NOTE", "_UID", "ZZ", "1A", "HUSB"}
+var vRootTags = []string{"INDI", "FAM", "NOTE", "ZZ", "7", "HEAD", "SOUR", "_X1"}
+var vChildTags = []string{"NAME", "DATE", "_UID", "1A", "HUSB", "BIRT", "NOTE", "ZZ"}
 
 func vRoundtrip(doc *Document, what string) {
 	text := doc.String()
@@ -102,6 +73,12 @@ func vRoundtrip(doc *Document, what string) {
 func VerifC01_Forest(cs int) {
 	seqs := vLevelSeqs(3)
 	seq := seqs[cs%len(seqs)]
+	// cases 0..7: reduced alphabets (5 tags, value length 0/2, pointer length 0/1);
+	// cases 8..15: full alphabets (8 tags, value length 0/1/3, pointer length 0/2)
+	ntags, vlens, plens := 5, []int{0, 2}, []int{0, 1}
+	if cs >= len(seqs) {
+		ntags, vlens, plens = 8, []int{0, 1, 3}, []int{0, 2}
+	}
 	doc := NewDocument()
 	doc.HasBOM = VsBool("bom")
 	var open []Node
@@ -109,20 +86,20 @@ func VerifC01_Forest(cs int) {
 		name := fmt.Sprintf("n%d", i)
 		var node Node
 		if lv == 0 {
-			tag := vRootTags[VsChoose(name+".tag", len(vRootTags))]
-			ptr := vLegalPointer(name+".p", []int{0, 2})
+			tag := vRootTags[VsChoose(name+".tag", ntags)]
+			ptr := vLegalPointer(name+".p", plens)
 			switch tag {
 			case "INDI":
 				node = doc.AddIndividual(ptr)
 			case "FAM":
 				node = doc.AddFamily(ptr)
 			default:
-				node = NewNode(TagFromString(tag), vLegalValue(name+".v", []int{0, 1, 3}), ptr)
+				node = NewNode(TagFromString(tag), vLegalValue(name+".v", vlens), ptr)
 				doc.AddNode(node)
 			}
 		} else {
 			parent := open[lv-1]
-			tag := vChildTags[VsChoose(name+".tag", len(vChildTags))]
+			tag := vChildTags[VsChoose(name+".tag", ntags)]
 			if tag == "HUSB" {
 				fam, isFam := parent.(*FamilyNode)
 				if !isFam {
@@ -131,7 +108,7 @@ func VerifC01_Forest(cs int) {
 				fam.SetHusbandPointer(vLegalPointer(name+".hp", []int{2}))
 				node = fam.Nodes()[len(fam.Nodes())-1]
 			} else {
-				node = NewNode(TagFromString(tag), vLegalValue(name+".v", []int{0, 1, 3}), vLegalPointer(name+".p", []int{0, 1}))
+				node = NewNode(TagFromString(tag), vLegalValue(name+".v", vlens), vLegalPointer(name+".p", plens))
 				parent.AddNode(node)
 			}
 		}
